@@ -22,6 +22,19 @@ package queue
 //@   props C09
 //@   requires [wired] queue != nil && ctx != nil
 // stepping stones for the release case, where the pending queue is pushed to twice
+// coalescing to the most recent value, for a key that is being processed: whatever the state of the
+// parking map, after a Put for an in-flight key the parked value is the value of that Put
+//@   ghostlocal sawPut bool
+//@   ghostlocal putKey K
+//@   ghostlocal putVal V
+//@   at Peek #1
+//@     ghost_here sawPut = false
+//@   at Contains #1
+//@     ghost_here sawPut = true
+//@     ghost_here putKey = item.Key
+//@     ghost_here putVal = item.Value
+//@   at backedge #1
+//@     assert [parked-value-is-the-most-recent] sawPut && has(addr(onHold), putKey) ==> in(putKey, onHoldQueue) && onHoldQueue[putKey] == putVal
 //@   at Push #1
 //@     assert [parked-keys-other-than-the-released-one-stay-in-flight; using others-stay-by-value, parked-only-while-in-flight] forall k K :: in(k, onHoldQueue) && k != released.Key ==> has(addr(onHold), k)
 //@   at Push #2
